@@ -134,9 +134,17 @@ impl<const N: usize> Serialize for Df88591String<N> {
     where
         S: sd::Serializer,
     {
-        let value: ArrayString<N> = self.chars().collect();
-
-        serializer.serialize_str(&value)
+        // an ArrayString<N> holds N bytes of UTF-8, which is too small for N Latin-1 characters
+        struct Chars<'a, const N: usize>(&'a Df88591String<N>);
+        impl<const N: usize> core::fmt::Display for Chars<'_, N> {
+            fn fmt(&self, f: &mut core::fmt::Formatter<'_>) -> core::fmt::Result {
+                for c in self.0.chars() {
+                    f.write_char(c)?;
+                }
+                Ok(())
+            }
+        }
+        serializer.collect_str(&Chars(self))
     }
 }
 #[cfg(feature = "serde")]
